@@ -104,6 +104,15 @@ static StepContent genStep(Rng& r, int step, int maxBig) {
             a.sv.resize(n);
             for (auto& x : a.sv) { int len = (int)r.below(9); x.clear(); for (int i = 0; i < len; ++i) x.push_back((char)('A' + r.below(26))); }
             pad = r.chance(0.5);
+            // a string longer than 8 characters makes the writer switch to the C0nn type (element width = longest string); with more
+            // strings than fit on one 80 column line the formatted array spans several lines
+            if (!pad && n > 0 && r.chance(0.25)) {
+                size_t width = 0;
+                for (auto& x : a.sv) if (r.chance(0.5)) { int len = 9 + (int)r.below(16); x.clear(); for (int i = 0; i < len; ++i) x.push_back((char)('a' + r.below(26))); }
+                a.sv[r.below(a.sv.size())] = std::string(9 + r.below(16), 'Q');
+                for (auto& x : a.sv) width = std::max(width, x.size());
+                a.type = eref::C0NN; a.width = (int)width;
+            }
             break;
         default: break;
         }
@@ -128,6 +137,7 @@ static void libWriteStep(const std::string& dir, bool fmt, const StepContent& c)
             if (c.padded[i]) { std::vector<ecl::PaddedOutputString<8>> p; for (const auto& x : a.sv) p.emplace_back(x); rst.write(a.name, p); }
             else rst.write(a.name, a.sv);
             break;
+        case eref::C0NN: rst.write(a.name, a.sv); break;
         case eref::MESS: rst.message(a.name); break;
         default: break;
         }
@@ -150,6 +160,7 @@ static eref::Array erstGet(ecl::ERst& r, const eref::Array& want, int step) {
     case eref::DOUB: a.dv = r.getRestartData<double>(want.name, step, 0); break;
     case eref::LOGI: { const auto& v = r.getRestartData<bool>(want.name, step, 0); a.lv.resize(v.size()); for (size_t k = 0; k < v.size(); ++k) a.lv[k] = v[k]; break; }
     case eref::CHAR: a.sv = r.getRestartData<std::string>(want.name, step, 0); break;
+    case eref::C0NN: a.sv = r.getRestartData<std::string>(want.name, step, 0); a.width = want.width; break;
     default: break;
     }
     return a;
